@@ -3,7 +3,11 @@
 
    Source anchors (asynq/futures.py): value 54-65, set_value 66-76, reset_unsafe 77-86,
    error 87-100, set_error 101-110, is_computed 111-117, _computed 118-141,
-   Future._compute 197-201, ConstFuture 205-219, ErrorFuture 224-235.                          *)
+   Future._compute 197-201, ConstFuture 205-219, ErrorFuture 224-235.
+   qcore/events.py: EventHook.subscribe 45-48 (append), unsubscribe 50-52 (list.remove: first
+   equal handler, ValueError when absent), safe_trigger 54-74 (iterates over a COPY of the handler
+   list taken when the notification starts; every handler of the copy is called, whatever the
+   handlers do to the live list or raise).                                                       *)
 From Asynq Require Export Base.
 
 (* what one run of the underlying computation does *)
@@ -19,14 +23,53 @@ Inductive kind :=
 | KConst                  (* ConstFuture: sinking on_computed hook               *)
 | KError.                 (* ErrorFuture: sinking on_computed hook               *)
 
-Inductive cbkind := CbOk | CbRaise.
+(* what an on_computed subscriber does when it is called (after it recorded the outcome it sees):
+   a small script that can re-enter the future's subscription list                             *)
+Inductive cbkind :=
+| CbOk                          (* returns                                                        *)
+| CbRaise                       (* raises an Exception                                            *)
+| CbUnsub (target : Z)          (* fut.on_computed.unsubscribe(<subscriber target>): itself, an
+                                   earlier or a later one; ValueError if it is not registered     *)
+| CbSub (id : Z) (k : cbkind)   (* fut.on_computed.subscribe(<new subscriber id with behaviour k>) *)
+| CbSeq (a b : cbkind).         (* a, then b unless a raised                                      *)
+
+Definition sub := (Z * cbkind)%type.
+
+(* list.remove on the live handler list: drops the first entry of that subscriber *)
+Fixpoint remove_first (t : Z) (l : list sub) : option (list sub) :=
+  match l with
+  | [] => None
+  | x :: r => if Z.eqb (fst x) t then Some r
+              else match remove_first t r with Some r' => Some (x :: r') | None => None end
+  end.
+
+(* one call of a subscriber: the live subscription list afterwards, and whether the call raised *)
+Fixpoint run_cb (k : cbkind) (live : list sub) : list sub * bool :=
+  match k with
+  | CbOk => (live, false)
+  | CbRaise => (live, true)
+  | CbUnsub t => match remove_first t live with Some l => (l, false) | None => (live, true) end
+  | CbSub id k' => (live ++ [(id, k')], false)
+  | CbSeq a b => let '(l1, r) := run_cb a live in if r then (l1, true) else run_cb b l1
+  end.
+
+(* EventHook.safe_trigger: the loop runs over [snap] - the copy of the handler list made when the
+   notification starts - while the subscribers act on [live]; an exception raised by a subscriber
+   is remembered and the loop goes on (FutureBase._computed then swallows and prints it).
+   Result: the live list afterwards, and the subscribers that were called, in call order.       *)
+Fixpoint notify (snap live : list sub) : list sub * list Z :=
+  match snap with
+  | [] => (live, [])
+  | sb :: rest =>
+    let '(live2, called) := notify rest (fst (run_cb (snd sb) live)) in (live2, fst sb :: called)
+  end.
 
 Record fstate := mk {
   fkind : kind;
   prov : list pout;            (* remaining script: outcome of the next runs; then [PRet VNone]    *)
   out : option outcome;
   runs : nat;                  (* how many times the underlying computation ran                 *)
-  subs : list (Z * cbkind);    (* on_computed subscribers in subscription order                 *)
+  subs : list sub;             (* on_computed handler list (live), in subscription order        *)
   log : list (Z * outcome)     (* callback invocations: (subscriber id, outcome it observed)     *)
 }.
 
@@ -55,13 +98,15 @@ Definition init (k : kind) (p : list pout) (o : outcome) : fstate :=
   | _ => mk k p None 0 [] []
   end.
 
-(* _computed: every subscriber present now is called once and sees the outcome already set;
-   an Exception raised by a callback is swallowed (printed).  AsyncTask._computed also closes the
-   generator: the rest of the script is dropped, a later run (after reset_unsafe) finds a closed
-   generator and completes with None (async_task.py 203-209, 285-297). *)
+(* _computed: the outcome is stored first; then safe_trigger calls the subscribers (each one sees
+   the outcome already set and appends its record to the log); an Exception raised by a callback is
+   swallowed (printed).  AsyncTask._computed also closes the generator: the rest of the script is
+   dropped, a later run (after reset_unsafe) finds a closed generator and completes with None
+   (async_task.py 203-209, 285-297). *)
 Definition complete (s : fstate) (o : outcome) : fstate :=
-  mk (fkind s) (match fkind s with KTask => [] | _ => prov s end) (Some o) (runs s) (subs s)
-     (log s ++ map (fun sb => (fst sb, o)) (subs s)).
+  mk (fkind s) (match fkind s with KTask => [] | _ => prov s end) (Some o) (runs s)
+     (fst (notify (subs s) (subs s)))
+     (log s ++ map (fun id => (id, o)) (snd (notify (subs s) (subs s)))).
 
 Definition report_value (o : outcome) : res :=
   match o with Ok v => RVal v | Err e => RRaise e end.
@@ -124,7 +169,8 @@ Fixpoint run (s : fstate) (ops : list op) : fstate * list res :=
     let '(s2, rs) := run s1 ops' in (s2, r :: rs)
   end.
 
-(* what the correspondence compares: every op result, the callback log, the provider run count *)
+(* what the correspondence compares: every op result, the callback log, the provider run count,
+   the subscribers registered at the end (list(fut.on_computed)) *)
 Definition run_case (k : kind) (p : list pout) (o : outcome) (ops : list op)
-  : list res * list (Z * outcome) * Z :=
-  let '(s, rs) := run (init k p o) ops in (rs, log s, Z.of_nat (runs s)).
+  : list res * list (Z * outcome) * Z * list Z :=
+  let '(s, rs) := run (init k p o) ops in (rs, log s, Z.of_nat (runs s), map fst (subs s)).
